@@ -121,7 +121,7 @@ ReadULong(t) == LET f == FirstNotIn(t, Blank, 1) IN
                 ELSE LET r == SignedAt(t, f) IN
                      IF ~r.ok THEN NoValue
                      ELSE IF r.big \/ (r.neg /\ r.n # 0) THEN Val([big |-> TRUE, n |-> 0]) ELSE Val([big |-> FALSE, n |-> r.n])
-\* a floating point number is only recognised, its value is not modelled:
+\* a floating point number is only recognised; its value is kept as the text of the number:
 \* optional sign, digits with optional fraction or a fraction starting with '.'
 DoubleEnd(t, i) ==    \* position after the number starting at i, 0 if there is none
   LET sg == IF i <= Len(t) /\ Ch(t, i) \in {"+", "-"} THEN 1 ELSE 0
@@ -135,7 +135,7 @@ DoubleEnd(t, i) ==    \* position after the number starting at i, 0 if there is 
       ed == IF hase THEN Digs(t, e0 + 1 + esg, [n |-> 0, big |-> FALSE, cnt |-> 0, next |-> 0]) ELSE [cnt |-> 0, next |-> e0] IN
   IF ~mant THEN 0 ELSE IF hase /\ ed.cnt > 0 THEN ed.next ELSE e0
 ReadDouble(t) == LET f == FirstNotIn(t, Blank, 1) IN
-                 IF f = 0 \/ DoubleEnd(t, f) = 0 THEN NoValue ELSE Val("D")
+                 IF f = 0 \/ DoubleEnd(t, f) = 0 THEN NoValue ELSE Val(SubSeq(t, f, DoubleEnd(t, f) - 1))
 \* a string: "skip starting white space ... strip trailing white space"; nothing left: no value
 ReadString(t) == LET f == FirstNotIn(t, Blank, 1) IN
                  IF f = 0 THEN NoValue ELSE Val(SubSeq(t, f, LastNotIn(t, Blank, Len(t))))
@@ -144,7 +144,7 @@ ReadString(t) == LET f == FirstNotIn(t, Blank, 1) IN
 ElemAt(t, i, dbl) ==
   LET f == FirstNotIn(t, Blank, i) IN
   IF f = 0 THEN [ok |-> FALSE, v |-> 0, next |-> Len(t) + 1]
-  ELSE IF dbl THEN LET e == DoubleEnd(t, f) IN IF e = 0 THEN [ok |-> FALSE, v |-> 0, next |-> f] ELSE [ok |-> TRUE, v |-> "D", next |-> e]
+  ELSE IF dbl THEN LET e == DoubleEnd(t, f) IN IF e = 0 THEN [ok |-> FALSE, v |-> 0, next |-> f] ELSE [ok |-> TRUE, v |-> SubSeq(t, f, e - 1), next |-> e]
   ELSE LET r == SignedAt(t, f) IN IF r.ok /\ ~r.big THEN [ok |-> TRUE, v |-> r.n, next |-> r.next] ELSE [ok |-> FALSE, v |-> 0, next |-> f]
 \* operator>>(istream&, std::vector<T>&) after the opening brace: elements separated by ',' up to '}'.
 \* A list that ends before its closing brace is no value (UnterminatedListIsNoValue); a list whose
@@ -163,8 +163,8 @@ ReadList(t, dbl) == LET f == FirstNotIn(t, Blank, 1) IN
                     IF f = 0 THEN NoValue
                     ELSE IF Ch(t, f) = "{" THEN ListFrom(t, f + 1, dbl, <<>>)
                     ELSE LET e == ElemAt(t, f, dbl) IN IF e.ok THEN Val(<<e.v>>) ELSE NoValue
-\* a list of strings is present as soon as anything follows the '=' (content not modelled)
-ReadSList(t) == IF FirstNotIn(t, Blank, 1) = 0 THEN NoValue ELSE Val("S")
+\* a list of strings is present as soon as anything follows the '=' (kept as its text, not split)
+ReadSList(t) == ReadString(t)
 
 (* ------------------------------ one line --------------------------------- *)
 NoErr == ""
@@ -196,7 +196,7 @@ SetVar(st, e, p) ==
   ELSE IF p.idx.big THEN [st EXCEPT !.err = "IndexNotRepresentable"]  \* an index that is no int cannot be "the index given"
   ELSE IF p.idx.n = 0 THEN                                           \* IndexZeroIsNoIndex
          IF e.vec > 0 THEN [st EXCEPT !.err = "MissingIndex"]        \* "expected a vectorised key ... but no bracket found"
-         ELSE [st EXCEPT !.vars[e.var] = v.v]
+         ELSE [st EXCEPT !.vars[e.var] = IF e.own THEN v ELSE v.v]
   ELSE IF e.vec = 0 THEN [st EXCEPT !.err = "UnexpectedIndex"]       \* "encountered unexpected vectorisation of key"
   ELSE IF p.idx.n < 1 \/ p.idx.n > Len(st.vars[e.var]) THEN [st EXCEPT !.err = "IndexOutOfRange"]   \* "the list ... has to be resized"
   ELSE [st EXCEPT !.vars[e.var][p.idx.n] = v.v]                      \* "vectorised keys are stored at the index given"
@@ -205,11 +205,16 @@ Resolve(al, kw) == IF kw \in DOMAIN al THEN al[kw] ELSE kw
 
 (* --------------------------- key maps and states -------------------------- *)
 NewState(km, al, vars) == [status |-> "end", km |-> km, al |-> al, vars |-> vars, err |-> NoErr]
-Entry(t, vec, var, proc) == [t |-> t, vec |-> vec, var |-> var, proc |-> proc, vals |-> <<>>, svals |-> <<>>]
-EnumEntry(var, proc, vals) == [t |-> "enum", vec |-> 0, var |-> var, proc |-> proc, vals |-> vals,
+Entry(t, vec, var, proc) == [t |-> t, vec |-> vec, var |-> var, proc |-> proc, vals |-> <<>>, svals |-> <<>>, own |-> FALSE]
+EnumEntry(var, proc, vals) == [t |-> "enum", vec |-> 0, var |-> var, proc |-> proc, vals |-> vals, own |-> FALSE,
                                svals |-> [i \in 1..Len(vals) |-> Standardise(vals[i])]]      \* values are compared after standardisation
+\* (an entry whose variable is "junk" gets a variable of its own, named like the keyword)
 KM(pairs) == [k \in {Standardise(pairs[i][1]) : i \in 1..Len(pairs)} |->
-                 pairs[CHOOSE i \in 1..Len(pairs) : Standardise(pairs[i][1]) = k /\ \A j \in (i + 1)..Len(pairs) : Standardise(pairs[j][1]) # k][2]]
+                 LET e == pairs[CHOOSE i \in 1..Len(pairs) : Standardise(pairs[i][1]) = k /\ \A j \in (i + 1)..Len(pairs) : Standardise(pairs[j][1]) # k][2] IN
+                 IF e.var = "junk" THEN [e EXCEPT !.var = k, !.own = TRUE] ELSE e]
+\* initial variables: vars plus one "unset" variable for every key of km that has a variable of its own
+\* (such a variable holds NoValue until it is set, then Val(value))
+WithOwnVars(km, vars) == [n \in DOMAIN vars \cup {km[k].var : k \in {kk \in DOMAIN km : km[kk].own}} |-> IF n \in DOMAIN vars THEN vars[n] ELSE NoValue]
 
 (* -------------------- call-backs of the Interfile headers ---------------- *)
 \* (InterfileHeader.cxx; they are processing functions of keys of the Interfile key maps below)
@@ -292,7 +297,8 @@ ApplyHook(st, e, p) ==
          IF v.type_of_data = -1 THEN [s1 EXCEPT !.err = "TypeOfDataUnsupported"]     \* "type_of_data needs to be set to supported value"
          ELSE IF TypeOfDataValues[v.type_of_data + 1] = "PET"
          THEN [s1 EXCEPT !.km = Merge(s1.km, PETKeys)]
-         ELSE [s1 EXCEPT !.vars.unmodelled = TRUE]                                    \* other kinds of data: not modelled
+         ELSE IF TypeOfDataValues[v.type_of_data + 1] = "Tomographic" THEN [s1 EXCEPT !.vars.unmodelled = TRUE]   \* SPECT keys: not modelled
+         ELSE s1                                                                      \* no further keys
     [] e.proc = "set_version_specific_keys" ->
          IF v.version_of_keys = "STIR3.0"
          THEN [s1 EXCEPT !.km = Merge(s1.km, STIR3Keys)]
@@ -474,7 +480,8 @@ TestRun(ids, nl) == ParseHeaderP(TestInit, AlphaLines(ids), nl)
 
 (* ------------------ the Interfile headers (part b of C17) ----------------- *)
 \* Key maps of InterfileImageHeader and InterfilePDFSHeader (InterfileHeader.cxx constructors).
-\* Variables whose value plays no role for the shape of the data are collected in `junk'.
+\* Keys whose variable plays no role in the modelled checks are entered with variable "junk" (J): KM
+\* gives each of them a variable of its own, so that two headers can be compared for equal meaning.
 Ign == Entry("none", 0, "", "nothing")
 J(t) == Entry(t, 0, "junk", "set")
 NumberFormatValues == <<"bit", "ascii", "signed integer", "unsigned integer", "float">>
@@ -514,9 +521,9 @@ CommonKeys == <<
   <<"energy window lower level", Entry("double", 1, "en_low", "set")>>,
   <<"energy window upper level", Entry("double", 1, "en_up", "set")>>,
   <<"start horizontal bed position (mm)", J("double")>>, <<"start vertical bed position (mm)", J("double")>> >>
-CommonVars == [junk |-> 0, unmodelled |-> FALSE, imaging_modality |-> "", version_of_keys |-> "", data_file_name |-> "",
+CommonVars == [unmodelled |-> FALSE, imaging_modality |-> "", version_of_keys |-> "", data_file_name |-> "",
                radionuclide_name |-> <<"">>, radionuclide_half_life |-> <<"D">>, radionuclide_branching |-> <<"D">>,
-               type_of_data |-> 5, patient_orientation |-> 3, patient_rotation |-> 5, number_format |-> 3, bytes_per_pixel |-> -1,
+               type_of_data |-> 6, patient_orientation |-> 3, patient_rotation |-> 5, number_format |-> 3, bytes_per_pixel |-> -1,
                num_dimensions |-> 2, matrix_size |-> << <<>>, <<>> >>, matrix_labels |-> <<"", "">>, pixel_sizes |-> <<"D", "D">>,
                num_time_frames |-> 1, num_image_data_types |-> 1, rel_start |-> <<>>, durations |-> <<>>,
                image_scaling_factors |-> << <<"D">> >>, num_energy_windows |-> 1, en_low |-> <<"D">>, en_up |-> <<"D">>,
@@ -527,7 +534,7 @@ ImageKM == KM(CommonKeys \o <<
   <<"index nesting level", J("slist")>>,
   <<"image data type description", Entry("string", 1, "image_data_type_description", "set")>> >>)
 NoAlias == [k \in {} |-> ""]
-ImageInit == NewState(ImageKM, NoAlias, Merge(CommonVars, [first_pixel_offsets |-> <<>>, image_data_type_description |-> <<"">>]))
+ImageInit == NewState(ImageKM, NoAlias, WithOwnVars(Merge(Merge(ImageKM, PETKeys), STIR3Keys), Merge(CommonVars, [first_pixel_offsets |-> <<>>, image_data_type_description |-> <<"">>])))
 PDFSKM == KM(CommonKeys \o <<
   <<"minimum ring difference per segment", Entry("ilist", 0, "min_ring_difference", "resize_segments_and_set")>>,
   <<"maximum ring difference per segment", Entry("ilist", 0, "max_ring_difference", "resize_segments_and_set")>>,
@@ -553,9 +560,10 @@ PDFSKM == KM(CommonKeys \o <<
 PDFSAlias == LET pairs == << <<"%TOF mashing factor", "TOF mashing factor">>, <<"Number of TOF time bins", "Maximum number of (unmashed) TOF time bins">>,
                              <<"Size of timing bin (ps)", "Size of unmashed TOF time bins (ps)">>, <<"timing resolution (ps)", "TOF timing resolution (ps)">> >> IN
              [k \in {Standardise(pairs[i][1]) : i \in 1..Len(pairs)} |-> Standardise(pairs[CHOOSE i \in 1..Len(pairs) : Standardise(pairs[i][1]) = k][2])]
-PDFSInit == NewState(PDFSKM, PDFSAlias, Merge(CommonVars, [min_ring_difference |-> <<>>, max_ring_difference |-> <<>>, num_rings_per_segment |-> <<>>,
-                                                           timing_poss_sequence |-> <<>>, num_segments |-> -1, num_views |-> 0, num_bins |-> 0,
-                                                           num_timing_poss |-> 1, order_found |-> FALSE]))
+PDFSInit == NewState(PDFSKM, PDFSAlias, WithOwnVars(Merge(Merge(PDFSKM, PETKeys), STIR3Keys),
+                       Merge(CommonVars, [min_ring_difference |-> <<>>, max_ring_difference |-> <<>>, num_rings_per_segment |-> <<>>,
+                                          timing_poss_sequence |-> <<>>, num_segments |-> -1, num_views |-> 0, num_bins |-> 0,
+                                          num_timing_poss |-> 1, order_found |-> FALSE])))
 
 \* InterfileHeader::post_processing: the consistency checks every Interfile header must pass
 HdrPostOk(v) ==
@@ -607,11 +615,11 @@ PDFSJudge(r, cfg) ==
        THEN [k |-> "reject", why |-> "per-segment information is inconsistent"]
   ELSE IF ~\E i \in 1..v.num_segments : v.min_ring_difference[i] + v.max_ring_difference[i] = 0 THEN [k |-> "reject", why |-> "no segment 0"]
   ELSE IF Len(v.timing_poss_sequence) > 0 /\ Len(v.timing_poss_sequence) # v.num_timing_poss THEN [k |-> "reject", why |-> "TOF bin order"]
-  ELSE IF v.data_file_name # cfg.datafile THEN [k |-> "reject", why |-> "data file"]
   ELSE [k |-> "may", why |-> "", segs |-> v.num_segments, views |-> v.num_views, bins |-> v.num_bins, axial |-> v.num_rings_per_segment,
         tof |-> v.num_timing_poss,
-        fits |-> /\ Len(v.data_offset) >= 1 /\ ~v.data_offset[1].big /\ TypeValid(v.number_format, v.bytes_per_pixel)
+        fits |-> /\ v.data_file_name = cfg.datafile        \* (a ProjDataFromStream is only opened; a wrong file shows when reading)
+                 /\ Len(v.data_offset) >= 1 /\ ~v.data_offset[1].big /\ TypeValid(v.number_format, v.bytes_per_pixel)
                  /\ Fits4(v.num_bins, v.num_views, SumSeq(v.num_rings_per_segment), v.num_timing_poss, v.bytes_per_pixel, v.data_offset[1].n, cfg.datalen)]
-\* the part of the final variables that determines what a reader does (everything but `junk')
-Relevant(v) == [k \in DOMAIN v \ {"junk"} |-> v[k]]
+\* two headers have the same meaning iff their runs end with the same variables
+Relevant(v) == v
 =============================================================================
